@@ -131,6 +131,17 @@ CLAIMED = {
             '"Started" = the job thread has entered the script job\'s execute(); the run the controller holds as current is read by the '
             'harness at call/return of the request. Promptness bound: 3000 scheduler steps and 10 ticks after the request returned.',
             'DESIGN.md section 6, C09'),
+    'C02': ('model_checking', 'TLC evaluation of a token-list denotation (Expr.tla) + TLC trace validation of observed values in every value position',
+            'Expr.tla defines the value of an expression on token lists (split at the lowest-precedence operator at depth 0, rightmost '
+            'for left-grouping levels, leftmost for ^), so precedence and associativity are in the specification. All lists with <= 2 '
+            'binary operators (x parenthesisation shapes x operand sets that separate groupings, unary minus at atoms; operands: '
+            'literals, variable, macro, register, user call, built-in call) and a sample with 3 (thorough: all, plus 20 000 long lists) '
+            'are evaluated by TLC, then the same token text is compiled and run by the real pipeline in every value position (print, '
+            'assign, register, argument, printf, if, repeat while, loop count, from/to bound) and TLC validates each observation. '
+            'Built-ins are checked on grids; [random a b] must produce exactly a..b.',
+            'Not demanded: -a^b, truth values as numbers, % with negative operands, fractional powers, sqrt of negatives. Numeric '
+            'agreement to 5-6 significant digits.',
+            'DESIGN.md section 6, C02'),
 }
 
 REASONS_PENDING = 'check not built yet in this round (planned in DESIGN.md section 6); no claim is made'
